@@ -83,29 +83,29 @@ pub fn map_constructor(
     }
 
     // If an iterable is passed, add its entries
-    // First collect all pairs from the array, then add them to the map
-    if let Some(JsValue::Object(arr)) = args.first() {
-        let pairs: Vec<(JsValue, JsValue)> = {
-            let arr_ref = arr.borrow();
-            let mut result = Vec::new();
-            if let Some(elements) = arr_ref.array_elements() {
-                for elem in elements {
-                    if let JsValue::Object(pair_arr) = elem {
-                        let pair_ref = pair_arr.borrow();
-                        if pair_ref.is_array() {
-                            let key = pair_ref
-                                .get_property(&PropertyKey::Index(0))
-                                .unwrap_or(JsValue::Undefined);
-                            let value = pair_ref
-                                .get_property(&PropertyKey::Index(1))
-                                .unwrap_or(JsValue::Undefined);
-                            result.push((key, value));
-                        }
-                    }
-                }
-            }
-            result
+    // First collect all pairs from the iterable, then add them to the map
+    if let Some(iterable) = args.first()
+        && !matches!(iterable, JsValue::Undefined | JsValue::Null)
+    {
+        let Some(items) = interp.collect_iterator_values(iterable)? else {
+            return Err(JsError::type_error(
+                "Map constructor argument is not iterable",
+            ));
         };
+        let mut pairs: Vec<(JsValue, JsValue)> = Vec::with_capacity(items.len());
+        for elem in &items {
+            let JsValue::Object(pair) = elem else {
+                return Err(JsError::type_error("Iterator value is not an entry object"));
+            };
+            let pair_ref = pair.borrow();
+            let key = pair_ref
+                .get_property(&PropertyKey::Index(0))
+                .unwrap_or(JsValue::Undefined);
+            let value = pair_ref
+                .get_property(&PropertyKey::Index(1))
+                .unwrap_or(JsValue::Undefined);
+            pairs.push((key, value));
+        }
 
         // Now add all pairs to the map
         let size_key = PropertyKey::String(interp.intern("size"));
